@@ -20,6 +20,7 @@ package placement
 
 import (
 	"regexp"
+	"strings"
 
 	"go.uber.org/zap"
 	"golang.org/x/exp/maps"
@@ -135,7 +136,7 @@ func newFilter(conf configs.Filter) Filter {
 		empty:     true,
 	}
 	// type can only be '' , allow or deny.
-	filter.allow = conf.Type != filterDeny
+	filter.allow = !strings.EqualFold(conf.Type, filterDeny)
 
 	var err error
 	// create the user list or regexp
